@@ -21,7 +21,7 @@ GLOBAL_ASSUMPTIONS = {
     'A-LIBM': 'libm functions are uninterpreted symbols constrained only by the instantiated axioms listed per obligation '
               '(sqrt(t)^2=t & sqrt(t)>=0 for t>=0; sin^2+cos^2=1; addition theorems; asin/acos/atan inverse relations)',
     'A-CONST': 'decimal literals that agree with sqrt(2), 1/sqrt(2), sqrt(3/5), sqrt(3/20), pi, pi^2/k, ln 2, ln 4 to >= 14 digits are taken to be those constants',
-    'A-FRONT': 'the extractor (gm2v/cxx.py) and interpreter (gm2v/interp.py) are correct; guarded on every run by bit-exact differential execution against the compiled real code',
+    'A-FRONT': 'the extractor (gm2v/cxx.py) and interpreter (gm2v/interp.py) are correct; guarded on every full run, where coverage.fidelity_guard is not null, by bit-exact differential execution against the compiled real code (scalar kernels: C01-C03, C10, C11, C20; MSSM model functions on real spectra: C03-C07, C18), and for all properties by replaying counterexamples on the real code',
     'A-SMT': 'z3 5.1 / z3 4.8.12 / cvc5 1.0.3 are sound',
 }
 
@@ -181,6 +181,9 @@ def main(argv):
             'extraction_rule_counts': rules,
             'fidelity_guard': fid_info,
             'must_fail_canary': canary_info,
+            'second_solver': {'confirmed': len([g for g in goals if 'confirmed by' in (g['solver'] or '')]),
+                              'unconfirmed': len([g for g in goals if 'unknown within' in (g['solver'] or '') or 'z3 finds a model' in (g['solver'] or '')]),
+                              'note': 'thorough tier only: every goal discharged by the z3 API is put to the z3 4.8.12 / cvc5 binaries as well; ring identities to z3'},
             'samples': samples,
             'all_goals': [dict(id=g['id'], status=g['status'], solver=g['solver'], seconds=g['seconds'], kind=g['kind']) for g in goals],
             'undecided': [g['id'] for g in by[OB.UNDECIDED]],
